@@ -30,9 +30,10 @@ STRATA = [
     ("larger", 240, 3500),
     ("merge-plan", 900, 12000),
     ("tiny-scale", 700, 9000),
+    ("scale", 5, 40),
     ("exhaustive-small", 1, 1),
 ]
-BATCH = {"exhaustive-small": 1}
+BATCH = {"exhaustive-small": 1, "scale": 1}
 REQUIRED_EVENTS = {"any": ["mst.cycle-property", "mst.spanning", "mst.acyclic", "mst.objective", "mst.weight-vs-ref",
                            "mst.kruskal-vs-prim", "mst.infeasible-iff-disconnected", "mst.forest-status",
                            "uf.post.union", "uf.inv.forest", "uf.inv.count", "uf.inv.rank"]}
@@ -158,6 +159,26 @@ def gen(stratum, rng, tier):
         rng.shuffle(edges)
         return {"kind": "g", "n": n, "edges": edges, "labels": _labels(rng, n), "start": rng.randrange(n),
                 "adj_seed": rng.randrange(1 << 30), "tuple_adj": rng.random() < 0.3}
+    elif stratum == "scale":
+        # thousands of nodes under the interpreter's default recursion limit: components that grow one node at a time
+        # (ascending weights along a path), then edges touching the far ends - the shape on which a union-find that lost
+        # its height bound, or anything recursive per node, stops returning
+        n = rng.randint(1500, 4000)
+        order = list(range(n))
+        if rng.random() < 0.5:
+            rng.shuffle(order)
+        k = n - 1 - rng.choice([0, 0, 1, 3])
+        edges = [(order[i], order[i + 1], i + 1) if rng.random() < 0.8 else (order[i + 1], order[i], i + 1) for i in range(k)]
+        top = n + 5
+        edges.append((order[0], order[n - 1], top))
+        for _ in range(rng.randint(2, 12)):
+            a, b = rng.sample(range(n), 2)
+            top += 1
+            edges.append((order[a], order[b], top))
+        if rng.random() < 0.5:
+            rng.shuffle(edges)
+        return {"kind": "g", "n": n, "edges": edges, "labels": list(range(n)), "start": rng.randrange(n),
+                "adj_seed": rng.randrange(1 << 30), "tuple_adj": False}
     elif stratum == "larger":
         n = rng.randint(15, 40)
         w = _weight_fn(rng, rng.choice(["ties", "int", "dyadic"]))
@@ -234,8 +255,10 @@ def shrink(case):
 # ---------------------------------------------------------------- judging
 
 def _drain(obs):
+    # the UnionFind conditions look at the representation: anomalies (mechanism evidence), never verdicts (DESIGN 2)
     for name, detail in _mon.drain():
-        obs.violate("contract:" + name, detail)
+        obs.event("anomaly.contract:" + name)
+        obs.mech.add("contract:" + name)
     for k, v in _mon.take_counts().items():
         obs.event(k, v)
 
@@ -308,6 +331,7 @@ def _run_graph(case, obs, budget=100_000):  # observed maximum on the unchanged 
     from vf.common import call, is_crash
 
     n, edges, labels = case["n"], [tuple(e) for e in case["edges"]], case["labels"]
+    budget = max(budget, 400 * (n + len(edges)))
     ref = _G.kruskal_ref(n, edges)
     totals = {}
     for be in (None, "python"):
